@@ -74,6 +74,16 @@ def parseLevels : Nat → List Str → List (List Binding)
   | k + 1, n :: rest => let (l, r) := parseLevel (natOf n) rest; l :: parseLevels k r
   | _ + 1, [] => []
 
+/-- `n` then `n` fields -/
+def takeN : List Str → List Str × List Str
+  | n :: rest => (rest.take (natOf n), rest.drop (natOf n))
+  | [] => ([], [])
+
+def showKind : FileKind → List Str
+  | .fortran p f => ["fortran".toList, (if p then ['1'] else ['0']), (if f then ['1'] else ['0'])]
+  | .extra => ["extra".toList]
+  | .skipped => ["skipped".toList]
+
 def variantOf (s : Str) : Variant :=
   if s == "repaired".toList then .repaired else if s == "asIs".toList then .asIs else variantOfTree
 
@@ -110,7 +120,28 @@ def dispatchC12 : List Str → Option (List Str)
             (if Gen.C12.usesIterSorted then "sorted".toList else "unsorted".toList),
             (if Gen.C12.countKeyLower then "lower".toList else "asWritten".toList),
             (if Gen.C12.incDirsOrdered then "ordered".toList else "hash".toList),
-            (if Gen.C12.inheritedIterOrdered then "ordered".toList else "hash".toList)]
+            (if Gen.C12.inheritedIterOrdered then "ordered".toList else "hash".toList),
+            (if Gen.C12.extensionBySuffix then "suffix".toList else "firstMatch".toList)]
+    else if cmd == "c12.filekind".toList then
+      -- c12.filekind <name> <n> exts.. <n> fixed.. <n> fpp.. <n> extra..   (lists in the order the settings hold them)
+      match args with
+      | name :: rest =>
+        let (e, r1) := takeN rest
+        let (f, r2) := takeN r1
+        let (p, r3) := takeN r2
+        let (x, _) := takeN r3
+        some ("ok".toList :: showKind (fileKindTree id ⟨e, f, p, x⟩ name))
+      | [] => some ["bad-request".toList]
+    else if cmd == "c12.find".toList then
+      -- c12.find <configuration> <out> <n> src dirs.. <n> user exclude dirs.. <n> extensions.. then the files
+      match args with
+      | cfg :: out :: rest =>
+        let (sd, r1) := takeN rest
+        let (ex, r2) := takeN r1
+        let (es, files) := takeN r2
+        let fs : FS := files.map (fun f => (splitSlash f, []))
+        some ("ok".toList :: (findSourcesTree cfg (sd.map splitSlash) (ex.map splitSlash) (splitSlash out) es fs).map joinSlash)
+      | _ => some ["bad-request".toList]
     else if cmd == "c12.include".toList then
       -- c12.include <own dir> <own has 0|1> <n> {dir has}: the directory the include file is taken from
       -- (the configured order stands in for the unknown iteration order when the tree goes through a set)
